@@ -167,7 +167,8 @@ def oggflac(ident, vendor, items, behind=(), serial=0x0F1AC0DE, comment_pages=Fa
 
 VENDOR = b"Xiph.Org libVorbis I 20200704"
 OPAQUE = b"\xde\xad\xbe\xef opaque \x00\x01\x02 extension data\xfe"
-STALE = b"\x00\x00ALBUM=Stale-Tail-of-an-older-comment" + bytes(24)
+# padding per RFC 7845 5.2 (first byte even) that is neither zero-filled nor zero at its first byte
+STALE = b"\x02\x00ALBUM=Stale-Tail-of-an-older-comment" + bytes(24)
 
 
 def opus_file(ident, trailer, vendor=b"libopus 1.3, layout", items=ITEMS, total=None, serial=0x0C08C08):
